@@ -408,6 +408,31 @@ Theorem C19_overshoot_outside_unit_alpha : 1 < nth 0 (qs (run_learn (3 # 2) (ini
 Proof. exact overshoot_witness. Qed.
 Print Assumptions C19_overshoot_outside_unit_alpha.
 
+(* every update multiplies the error to the reward just received by (1 - step) ... *)
+Theorem C19_update_scales_error : forall alpha s a r, (a < length (qs s))%nat -> (a < length (cnts s))%nat ->
+  nth a (qs (learn alpha s a r)) 0 - r == (1 - step_of alpha (nth a (cnts s) 0%nat)) * (nth a (qs s) 0 - r).
+Proof. exact learn_error. Qed.
+Print Assumptions C19_update_scales_error.
+
+(* ... so for an admissible rate the estimate moves toward the reward: the error never grows nor changes sign *)
+Theorem C19_update_never_overshoots : forall alpha s a r, alpha_ok alpha ->
+  (a < length (qs s))%nat -> (a < length (cnts s))%nat ->
+  Qabs (nth a (qs (learn alpha s a r)) 0 - r) <= Qabs (nth a (qs s) 0 - r) /\
+  0 <= (nth a (qs (learn alpha s a r)) 0 - r) * (nth a (qs s) 0 - r).
+Proof. exact learn_no_overshoot. Qed.
+Print Assumptions C19_update_never_overshoots.
+
+(* a full step (alpha = 1, or the first visit in the sample-average setting) sets the estimate to the reward *)
+Theorem C19_full_step_takes_reward : forall alpha s a r, (a < length (qs s))%nat -> (a < length (cnts s))%nat ->
+  step_of alpha (nth a (cnts s) 0%nat) == 1 -> nth a (qs (learn alpha s a r)) 0 == r.
+Proof. exact learn_full_step. Qed.
+Print Assumptions C19_full_step_takes_reward.
+
+Example C19_nonvacuous_full_step :
+  Qeq_bool (step_of (-1 # 1) 0) 1 = true /\ Qeq_bool (step_of (1 # 1) 7) 1 = true /\
+  Qeq_bool (nth 1 (qs (learn (-1 # 1) (init_agent 3 (5 # 1)) 1 (2 # 1))) 0) (2 # 1) = true.
+Proof. vm_compute. auto. Qed.
+
 (* non-vacuity: the example trace has rewards in [-1/2, 9]; the initial value 5 is inside; so are all estimates *)
 Example C19_nonvacuous_hull :
   let s := run_learn (-1 # 1) (init_agent 3 (5 # 1)) ex_trace in
